@@ -122,13 +122,18 @@ def check_history(ctx, pid, ordered, ttl, ops, out, attrs_cache):
     inp = {'ordered': ordered, 'ttl': ttl, 'ops': ops}
     alive = {}
     k = 0
+    scale = 1          # time unit 1/scale second (op s:<k>); TTLs are given in seconds
     for op in ops:
         p = op.split(':')
         if p[0] == 't':
             spec.now = int(p[1])
             continue
         if p[0] == 'l':
-            spec.ttl = None if p[1] == 'N' else int(p[1])
+            spec.ttl = None if p[1] == 'N' else int(p[1]) * scale
+            continue
+        if p[0] == 's':
+            spec.ttl = None if spec.ttl is None else spec.ttl // scale * int(p[1])
+            scale = int(p[1])
             continue
         if p[0] in 'ra':
             continue
@@ -334,6 +339,19 @@ def expiry_histories(rng, pool, count):
                 continue
             ops.append('t:%d' % t)
             ops.append('c' if rng.random() < 0.8 else 'n:2')
+        if rng.random() < 0.5:
+            # the same history counted in quarter seconds, with the vessels' time stamps moved by fractions of a
+            # second (so that several tracks share one whole second, and ages fall a fraction short of the TTL)
+            q = []
+            for op in ops:
+                p = op.split(':')
+                if p[0] == 't':
+                    q.append('t:%d' % (int(p[1]) * 4 + rng.choice([0, 0, 1, 2, 3])))
+                elif p[0] == 'u':
+                    q.append('u:%s:%d' % (p[1], int(p[2]) * 4 + rng.choice([0, 1, 2, 3])))
+                else:
+                    q.append(op)
+            ops = ['s:4'] + q + ['n:1', 'n:2', 'n:3']
         out.append((ordered, ttl, ops))
     return out
 
